@@ -294,6 +294,13 @@ def run_check(prop, tier, batch_seed=None, workers=None, runs=None, budget=None,
             "workers": workers,
             "repo": repo_root(),
         }
+        fk = {}
+        for k, v in stats.items():
+            for pre, field in (("fault_fired_", "fired"), ("fault_configured_not_fired_", "configured_not_fired"), ("fault_configured_", "configured")):
+                if k.startswith(pre):
+                    fk.setdefault(k[len(pre):], {"configured": 0, "fired": 0, "configured_not_fired": 0})[field] = v
+                    break
+        cov["fault_kinds_injected"] = dict(sorted(fk.items()))
         cov.update(extra)
         if hasattr(mod, "finish_coverage"):
             mod.finish_coverage(cov, stats, sets)
